@@ -135,6 +135,34 @@ def build(rng, tier):
             inst = f"{pid}_{j}"
             ops = [f"eng new {inst} {pid} par {r2.choice([1, 2, 4, 8])}"] + engcheck.load_ops(inst, inp) + [f"eng run {inst}", f"eng dump {inst}", f"eng run {inst}", f"eng dump {inst}", f"eng run {inst}", f"eng dump {inst}"]
             cases.append(engcheck.Case(pid, inst, ops, {"inp": inp, "marks": ["same", "same"], "kind": "agg-rerun-par"}))
+    # BYODS relations (`#[ds(trrel)]`, `#[ds(eqrel)]`, `#[ds(trrel_uf)]`) fed by a plain relation: run; run; push edges into the feeding relation; run - the provider's merge meets
+    # a relation whose content sits in `delta` with an empty `total` at the start of the re-run; new tuples must be joined with what the relation already holds.
+    # Model side: the explicit-closure twin; the tagged relation itself has no readable rows (FakeVec) and is masked on both sides
+    from . import c12
+    for k, ds in enumerate(["trrel", "eqrel", "trrel_uf"] if tier == "quick" else ["trrel", "eqrel", "trrel_uf"] * 2):
+        tb = {"rels": [{"arity": 2}, {"arity": 2, "ds": ds}, {"arity": 2}, {"arity": 1}],
+              "rules": [{"heads": [(1, [("var", 0), ("var", 1)])], "body": [("cl", 0, [("v", 0), ("v", 1)], [])]},
+                        {"heads": [(2, [("var", 0), ("var", 1)])], "body": [("cl", 1, [("v", 0), ("v", 1)], [])]},
+                        {"heads": [(3, [("var", 1)])], "body": [("cl", 1, [("e", 0), ("v", 1)], [])]}],
+              "t": 1}
+        pid = f"hb{k}"
+        progs[pid] = eng.twin(tb); mods.append((pid, c12.rs_module_ds(pid, tb)))
+        for j in range(5 if tier == "quick" else 12):
+            r2 = rng.fork(f"{pid}h{j}")
+            n = r2.range(4, 8)
+            e1 = list(dict.fromkeys((r2.below(n), r2.below(n)) for _ in range(r2.range(2, 5))))
+            if j % 2 == 0: e1 = [(1, 2), (2, 3)] + [t for t in e1 if t not in ((1, 2), (2, 3))][:2]
+            e2 = [t for t in dict.fromkeys([(3, 4), (0, 1)] + [(r2.below(n + 2), r2.below(n + 2)) for _ in range(r2.range(0, 3))]) if t not in e1]
+            if ds == "trrel":
+                # (known finding F7 of C11: a trrel relation lacks the pairs (x, x) that only a cycle implies - the histories of THIS check stay on acyclic graphs)
+                e1 = list(dict.fromkeys((min(a, b), max(a, b)) for a, b in e1 if a != b)) or [(1, 2)]
+                e2 = [t for t in dict.fromkeys((min(a, b), max(a, b)) for a, b in e2 if a != b) if t not in e1]
+            inp = {0: e1, 2: [], 3: []}
+            union = {0: e1 + e2, 2: [], 3: []}
+            inst = f"{pid}_{j}"
+            ops = [f"eng new {inst} {pid}"] + engcheck.load_ops(inst, inp) + [f"eng run {inst}", f"eng dump {inst}", f"eng run {inst}", f"eng dump {inst}",
+                   f"eng push {inst} r0" + "".join(" " + eng.sx_tuple(t) for t in e2), f"eng run {inst}", f"eng dump {inst}"]
+            cases.append(engcheck.Case(pid, inst, ops, {"inp": inp, "marks": ["same", union], "kind": f"byods-{ds}-history", "byods": 1}))
     # witness of F2 (fixed by 8b2e261; must pass)
     w = {"rels": [{"arity": 2}, {"arity": 1}, {"arity": 2}],
          "rules": [{"heads": [(2, [("var", 0), ("var", 21)])], "body": [("cl", 1, [("v", 0)], []), ("agg", [21], "count", [], 0, [("k", ("var", 0)), "_"])]}]}
@@ -149,10 +177,25 @@ def known(c, p, impl, model):
     return None      # F2 is fixed by 8b2e261 and F4 by 409a150: nothing is attributed any more
 
 
+def mask_rel(line, t):
+    """a dump line without the rows of relation t (a BYODS relation has no readable row vector)"""
+    if t is None or not line.startswith("r0:"): return line
+    return " | ".join((f"r{t}:" if seg.split(":")[0].strip() == f"r{t}" else seg.strip()) for seg in line.split("|"))
+
+
 def oracle(c, p, out):
+    t = c.meta.get("byods")
+    if t is not None:
+        out = [mask_rel(l, t) for l in out]
+        spec_of = lambda inp: {r: (set() if r == t else v) for r, v in engcheck.spec_sets(p, inp).items()}
+        return _oracle(c, p, out, spec_of)
+    return _oracle(c, p, out, lambda inp: engcheck.spec_sets(p, inp))
+
+
+def _oracle(c, p, out, spec_sets):
     dumps = [l for l, o in zip(out, c.ops) if o.startswith("eng dump")]
     if any(not d.startswith("r0:") for d in dumps): return "run/dump failed: " + next(d for d in dumps if not d.startswith("r0:"))
-    first = None if c.meta.get("idem_only") else engcheck.check_sets(p, dumps[0], engcheck.spec_sets(p, c.meta["inp"]))
+    first = None if c.meta.get("idem_only") else engcheck.check_sets(p, dumps[0], spec_sets(c.meta["inp"]))
     if first: return "first run: " + first
     prev = dumps[0]
     for k, (m, d) in enumerate(zip(c.meta["marks"], dumps[1:])):
@@ -160,7 +203,7 @@ def oracle(c, p, out):
             a, _ = engcheck.dump_sets(prev); b, _ = engcheck.dump_sets(d)
             if a != b: return f"run() on an unmodified value changed a relation (step {k + 1}): " + str({r: sorted(b[r] ^ a[r])[:4] for r in a if a[r] != b.get(r)})
         else:
-            w = engcheck.check_sets(p, d, engcheck.spec_sets(p, m))
+            w = engcheck.check_sets(p, d, spec_sets(m))
             if w: return f"re-run after pushing facts differs from a fresh run on the union (step {k + 1}): " + w
         prev = d
     return None
@@ -169,6 +212,9 @@ def oracle(c, p, out):
 def canon(c, out):
     # reads of a lattice through its value column are outside the model's (monotone, snapshot) semantics: judged by the idempotence oracle only
     if c.meta.get("idem_only"): return ["<non-monotone lattice read: judged by the idempotence oracle>" for _ in out]
+    if c.meta.get("byods") is not None:
+        # the model ran the explicit-closure twin: plain relations are compared as sets (the twin derives a row of a plain relation once, like the tagged program)
+        return [mask_rel(l, c.meta["byods"]) for l in out]
     return out
 
 
